@@ -8,7 +8,11 @@ Transcription of
 * `SplitIntoBins.__init__` (276-333) — `SIB.new`; `fill` (335-363) — `fillWalk`, `SIB.fill`, `SIB.fillAll`;
   `compute` (365-405) — `SIB.compute`,
 * `IterateBins.run` (79-131) — `binContext`, `iterateBinsOne`, `iterateBinsRun`,
-* `MapBins.run` (201-270) — `mapBinsOne`, `mapBinsRun`,
+* `MapBins.run` (201-270) — `mapBinsOne`, `mapBinsRun`; with the constructor argument `get_example_bin` —
+  `mapBinsOneG`, `mapBinsRunG`, `lastOfArray`,
+* `lena.flow.Selector.__init__/__call__`, `And`, `Or` (flow/selectors.py:13-110, 205-266) and
+  `lena.context.contains` (context/functions.py:14-63) for the forms of `select_bins` — `SelAtom`, `SelForm`,
+  `containsV`,
 * `lena.structures.histogram.__init__` with given bins (histogram.py:117-165, after fix 8d715e5) — `mkHistogram`,
 * `get_example_bin`, `iter_bins_with_edges`, `cell_to_string` (hist_functions.py:282-296, 474-507, 28-68),
 * `lena.context.update_nested` (context/functions.py:538-598) — `nestInto`, `updateNested`.
@@ -653,8 +657,135 @@ def mapBinsInit (seqOk selOk : Bool) : Except (Exc ε) Unit :=
   else if !selOk then .error .lenaTypeError
   else .ok ()
 
+/-! ### `MapBins(get_example_bin=…)`: the caller chooses the "arbitrary bin"
+
+`MapBins.__init__` takes a callable `get_example_bin` (split_into_bins.py:144-145, 196-197); `run` calls it
+on the histogram (line 224: the bin that `select_bins` tests) and on the transformed bins (line 252: the bin
+whose context goes to `context.value`).  `mapBinsOne` above is the case of the default
+`hist_functions.get_example_bin` (`mapBinsOneG_default`). -/
+
+mutual
+/-- a caller's `get_example_bin` that takes the last cell: `while isinstance(bins, list): bins = bins[-1]`
+(`IndexError` for an empty list) -/
+def lastOfArray : NArr β → Except (Exc ε) β
+  | .leaf v => .ok v
+  | .node xs => lastOfList xs
+/-- `bins[-1]` of a list of sub-arrays, then on into it -/
+def lastOfList : List (NArr β) → Except (Exc ε) β
+  | [] => .error .indexError
+  | [x] => lastOfArray x
+  | _ :: y :: r => lastOfList (y :: r)
+end
+
+/-- `mapBinsResult` with the caller's example bin of the new bins (`exArr`) -/
+def mapBinsResultG (exArr : NArr (Value D) → Except (Exc ε) (Value D)) (drop : Bool) (edges : Edges α)
+    (context : Slots) (newBins : NArr (Value D)) : Except (Exc ε) (FVal α D) :=
+  let newData : Except (Exc ε) (NArr (Value D)) :=
+    if drop then liftErr (NArr.mdMap (dataOnly names) newBins) else .ok newBins
+  match newData with
+  | .error e => .error e
+  | .ok nd =>
+    match mkHistogram edges nd with
+    | .error e => .error e
+    | .ok newHist =>
+      match exArr newBins with
+      | .error e => .error e
+      | .ok ex =>
+        let binContext := (C14.getDataContext names ex).2
+        if binContext.any Option.isSome then
+          match updateNested (kValue names) context binContext with
+          | .error e => .error (Exc.ofErr e)
+          | .ok c => .ok (.hist newHist (some c))
+        else .ok (.hist newHist (some context))
+
+/-- `MapBins.run` for one value of the flow with the caller's `get_example_bin`: `exHist` is what it returns
+for the histogram, `exArr` what it returns for an array of bins -/
+def mapBinsOneG (exHist : Hist α (Value D) → Except (Exc ε) (Value D))
+    (exArr : NArr (Value D) → Except (Exc ε) (Value D))
+    (seqStart : Value D → Except ε (Trace (Value D) ε)) (sel : Value D → Bool) (drop : Bool) :
+    FVal α D → Trace (FVal α D) (Exc ε)
+  | .plain v => ⟨[.plain v], none⟩
+  | .hist h ctx =>
+    match exHist h with
+    | .error e => ⟨[], some e⟩
+    | .ok b00 =>
+      if !sel b00 then ⟨[.hist h ctx], none⟩
+      else
+        match mdMapE (startCell seqStart) .lenaTypeError .unmodelled h.bins with
+        | .error e => ⟨[], some e⟩
+        | .ok traces =>
+          mdSeqMapRun (mapBinsResultG names exArr drop h.edges (ctx.getD (emptyD names.length))) traces
+
+def mapBinsRunG (exHist : Hist α (Value D) → Except (Exc ε) (Value D))
+    (exArr : NArr (Value D) → Except (Exc ε) (Value D))
+    (seqStart : Value D → Except ε (Trace (Value D) ε)) (sel : Value D → Bool) (drop : Bool)
+    (flow : List (FVal α D)) : Trace (FVal α D) (Exc ε) :=
+  traceFlatMap (mapBinsOneG names exHist exArr seqStart sel drop) flow
+
 end bins
 end order
+
+/-! ## `lena.flow.Selector`: the forms of `select_bins`
+
+`IterateBins.__init__` wraps `select_bins` in a `Selector` (split_into_bins.py:73-77), `MapBins.__init__`
+does so unless it is one already (187-195).  `Selector.__init__` (flow/selectors.py:13-92) decides by the type
+of its argument: a class tests the data part of the value with `isinstance`; another callable is used as it
+is; a string tests the context of the value with `lena.context.contains`; a list is the *or*, a tuple the
+*and* of the selectors made from its items (`Or.__call__` = `any`, `And.__call__` = `all`).  Containers
+inside containers are not modelled. -/
+
+section selector
+variable (names : List String)
+
+/-- `lena.context.contains(d, s)` (context/functions.py:14-63) for `levels = s.split(".")` (`[]` for the
+empty string, which means the context itself): walk the dictionaries along all levels but the last; the last
+level is a key of the dictionary reached, or equals `str(value)` of the value reached.  `str` of a number or a
+string is modelled; a tuple or list never equals a level (levels here contain no brackets). -/
+def containsV : List String → V → Bool
+  | [], _ => true
+  | [last], .dict d => (getSlot d (key names last)).isSome
+  | [last], .int i => toString i == last
+  | [last], .str s => s == last
+  | [_], .seq _ _ => false
+  | k :: l :: rest, .dict d =>
+    match getSlot d (key names k) with
+    | none => false
+    | some v => containsV (l :: rest) v
+  | _ :: _ :: _, _ => false
+
+/-- an item a `Selector` is made from -/
+inductive SelAtom (D : Type) where
+  /-- a callable that is not a class: used as it is, on the whole value -/
+  | fn (f : Value D → Bool)
+  /-- a class: `isinstance(get_data(value), cls)` -/
+  | cls (isInst : D → Bool)
+  /-- a string `s`: `contains(get_context(value), s)`; `levels = s.split(".")` -/
+  | ctx (levels : List String)
+
+/-- the argument of `Selector(...)` -/
+inductive SelForm (D : Type) where
+  | atom (a : SelAtom D)
+  /-- a list: `Or` -/
+  | any (l : List (SelAtom D))
+  /-- a tuple: `And` -/
+  | all (l : List (SelAtom D))
+
+def SelAtom.eval : SelAtom D → Value D → Bool
+  | .fn f, v => f v
+  | .cls p, v => p (C14.getDataContext names v).1
+  | .ctx levels, v => containsV names levels (.dict (C14.getDataContext names v).2)
+
+/-- `Selector(form)(value)` -/
+def SelForm.eval : SelForm D → Value D → Bool
+  | .atom a, v => a.eval names v
+  | .any l, v => l.any (fun a => a.eval names v)
+  | .all l, v => l.all (fun a => a.eval names v)
+
+/-- `IterateBins` applies the selector to the data part of the example bin (line 103-104): a value without
+context -/
+def SelForm.evalData (f : SelForm D) (d : D) : Bool := f.eval names (.bare d)
+
+end selector
 
 /-! ## `cell_to_string` (the default `create_edges_str`) -/
 
